@@ -26,6 +26,7 @@
 #include "qsbr.hpp"
 #include "test_heap.hpp"
 
+#include "common/lockmon.hpp"
 #include "common/model.hpp"
 #include "common/sched.hpp"
 #include "common/universe.hpp"
@@ -216,15 +217,26 @@ class history {
       bool threw = false, wrong_type = false, got = false;
       injector::reset();
       injector::fail_on_nth_allocation(kth);
-      try {
-        got = call();
-      } catch (const std::bad_alloc&) {
-        threw = true;
-      } catch (...) {
-        threw = true;
-        wrong_type = true;
+      int mutexes_held;
+      {
+        const lockmon::scope lm;  // counts std::mutex lock/unlock of this thread during the call
+        try {
+          got = call();
+        } catch (const std::bad_alloc&) {
+          threw = true;
+        } catch (...) {
+          threw = true;
+          wrong_type = true;
+        }
+        mutexes_held = lockmon::held;
       }
       injector::reset();
+      if (mutexes_held != 0) {
+        fail(std::string(what) + "/mutex-left-locked", threw ? "an operation that failed with an exception returned with a mutex still locked" : "an operation returned with a mutex still locked",
+             json::object().set("key", vh::hex(k)).set("k", kth).set("held", mutexes_held));
+        return false;
+      }
+      rep().count("mutex_balance_checks");
       rep().evaluation();
       rep().count(std::string("injections.") + what);
       if (!threw) {
@@ -453,6 +465,7 @@ int main(int argc, char** argv) {
   unodb::verif::on_dealloc.store(dealloc_cb);
   vs::install_hooks();
   vs::S().on_fatal = fatal_handler;
+  if (!lockmon::selftest()) rep().inconclusive("oom: pthread_mutex interposition does not intercept std::mutex in this build; the mutex-left-locked monitor is inactive");
   signal(SIGABRT, crash_context);
   signal(SIGSEGV, crash_context);
   const vh::case_range cr(a);
